@@ -315,6 +315,15 @@ Definition strategy_ok (ths : list thread) (v : cversion) (ids : list N) (dest :
      (unchosen ids v)
   && forallb (pw_ok dest inp) ths.
 
+(** [choice_ok]: what makes a [Choice::Merge] safe to run concurrently with the writer,
+    rotations, flushes and the other in-flight compactions: the checks worker.rs performs
+    itself plus the obligation on the strategy.  K1 runs every choice that passes
+    [rust_checks] (as the crate does) and raises the flag [c_bad] when [strategy_ok] fails;
+    the theorems of Proofs/Conc.v are about runs in which the flag stays down. *)
+Definition choice_ok (hidden : list N) (ths : list thread) (v : cversion) (ids : list N)
+           (dest : nat) : bool :=
+  rust_checks hidden v ids && strategy_ok ths v ids dest.
+
 (** * 6. Steps *)
 
 (** ** writer (thread id 0) *)
